@@ -158,6 +158,11 @@ func (c *RuleChecker) replaceUnexpectRulePeer(region *core.RegionInfo, rf *place
 		return nil, errors.New("no store to replace peer")
 	}
 	newPeer := &metapb.Peer{StoreId: store, Role: rf.Rule.Role.MetaPeerRole()}
+	if core.IsLearner(peer) {
+		// keep the role, so that the replacement is added before the old peer is removed;
+		// a loosely matched learner is promoted afterwards.
+		newPeer.Role = metapb.PeerRole_Learner
+	}
 	//  pick the smallest leader store to avoid the Offline store be snapshot generator bottleneck.
 	var newLeader *metapb.Peer
 	if region.GetLeader().GetId() == peer.GetId() {
